@@ -14,6 +14,34 @@ from . import findings as kf
 VERIF = os.path.dirname(os.path.dirname(os.path.abspath(__file__)))
 NPROC = int(os.environ.get("VERIF_NPROC", "16"))
 
+
+REPRO_TMPL = """#!/venv/bin/python
+# stand-alone replay of one {pid} violation without the explorer: runs the single recorded case on the current tree
+# (VERIF_REPO=<dir> to point at another copy of csvpath). exit 1 + the divergence if the property is violated, else exit 0.
+import json, os, sys
+sys.path.insert(0, {verif!r})
+os.environ.setdefault("PYTHONHASHSEED", "0")
+from mcx import run
+run.boot(memo=False)
+import importlib
+space = importlib.import_module("spaces.{space}")
+if hasattr(space, "worker_init"):
+    space.worker_init()
+case = json.loads({case!r})
+r = space.{fn}(case)
+for v in r.get("viol") or []:
+    print("VIOLATED:", v["case"]); print("   ", v["diverge"])
+sys.exit(1 if r.get("viol") else 0)
+"""
+
+
+def _write_repro(path_json, pid, name, case, bfs=False):
+    try:
+        with open(path_json[:-5] + ".py", "w", encoding="utf-8") as f:
+            f.write(REPRO_TMPL.format(pid=pid, verif=VERIF, space=name, case=json.dumps(case, ensure_ascii=False), fn="run_history" if bfs else "run_case"))
+    except Exception:  # noqa: BLE001
+        pass
+
 _SPACE = None
 
 
@@ -270,6 +298,7 @@ def explore(space, tier, seed, chunk_size=None, budget_s=None):
                         ensure_ascii=False,
                         default=repr,
                     )
+                _write_repro(path, pid, name, v["casedata"])
                 lines_out.append(f"VIOLATION property={pid} replay={path}")
                 lines_out.append(f"  case: {v['case'][:300]}")
                 lines_out.append(f"  diverge: {v['diverge'][:300]}")
@@ -540,6 +569,7 @@ def explore_bfs(space, tier, seed):
                         ensure_ascii=False,
                         default=repr,
                     )
+                _write_repro(path, pid, name, v["casedata"], bfs=True)
                 print(f"VIOLATION property={pid} replay={path}")
                 print(f"  case: {v['case'][:400]}")
                 print(f"  diverge: {v['diverge'][:400]}")
